@@ -178,6 +178,14 @@ impl BuddyAllocator {
         None
     }
 
+    // Verification hook: one flag per order-0 page, true if the page is allocated
+    #[cfg(redb_verif)]
+    pub(crate) fn verif_allocated_flags(&self) -> Vec<bool> {
+        (0..self.len())
+            .map(|page| self.find_free_order(page).is_none())
+            .collect()
+    }
+
     pub(crate) fn trailing_free_pages(&self) -> u32 {
         let mut free_pages = 0;
         let mut next_page = self.len() - 1;
